@@ -222,7 +222,12 @@ func genLargeBlock(t *rapid.T) harness.Case {
 	size := []int{300000, 345000, 352000, 400000, 524288, 700000, 1000000, 1040000}[rapid.IntRange(0, 7).Draw(t, "size")]
 	var sb strings.Builder
 	sb.WriteString("first\n\n")
-	switch rapid.IntRange(0, 3).Draw(t, "kind") {
+	switch rapid.IntRange(0, 5).Draw(t, "kind") {
+	case 4, 5:
+		// not a block but a gap: a run of blank lines (which belong to no block
+		// and may be longer than any block is allowed to be)
+		blank := []string{"\n", " \n", "\r\n", "\t\n"}[rapid.IntRange(0, 3).Draw(t, "blank")]
+		sb.WriteString(strings.Repeat(blank, 2*size/len(blank)))
 	case 0:
 		sb.WriteString("```\n" + strings.Repeat("code line here\n", size/15) + "```\n")
 	case 1:
@@ -397,7 +402,7 @@ func TestProperty(t *testing.T) {
 		{Name: "long", Quick: 150, Thorough: 2000, Gen: genCase(true), Prop: prop, Rule: "long mode 6-30 KB (buffer grows past the 8 KiB window): " + rule},
 		{Name: "long_documents", Quick: 120, Thorough: 1500, Gen: genLongDoc, Prop: prop, Rule: "documents of 20-120 KB made of hundreds of root blocks (generated pieces repeated in turn), read as much at a time as the parser asks for or in fixed chunks around 8 KiB, all blocks held until the end and compared then: " + rule},
 		{Name: "std_readers", Quick: 12000, Thorough: 150000, Gen: genStdReader, Prop: propStdReader, Rule: "the input delivered by the standard library's readers (bytes.Reader, strings.Reader, io.SectionReader, bufio.Reader, iotest.DataErrReader / HalfReader / OneByteReader), half of the time positioned k bytes past the start by earlier reads or a Seek: the blocks must be those of Parse(input[k:]) and the end io.EOF, persistently"},
-		{Name: "large_blocks", Quick: 8, Thorough: 60, Gen: genLargeBlock, Prop: prop, Rule: "one root block of 300 KB to just under the streaming parser's 1 MiB limit (fenced or indented code, HTML block, quote) between small blocks, under full reads, fixed chunks or a fault: " + rule},
+		{Name: "large_blocks", Quick: 10, Thorough: 60, Gen: genLargeBlock, Prop: prop, Rule: "one root block of 300 KB to just under the streaming parser's 1 MiB limit (fenced or indented code, HTML block, quote), or a run of blank lines of 0.6-2 MB, between small blocks, under full reads, fixed chunks or a fault: " + rule},
 		{Name: "enumerate", Quick: 600, Thorough: 8000, Gen: genSmall, Prop: propEnum, Rule: "inputs truncated to <= 48 bytes; for each, EVERY fault point k in 0..len (single read and one-byte reads, error with and without data) and EVERY two-cut schedule is run; non-trivial = input of >= 4 bytes"},
 	}})
 }
